@@ -307,6 +307,10 @@ def check_conflict_graph(chk, fi: FuncInfo) -> None:
     if len(inner) != len(adds) or any(not astq.same(inner[0].test, g.test) or g.polarity is not True for g in inner):
         chk.error("conflict-graph", fi.where, "graph insertions are not all guarded by one positive conflict test")
         return
+    # names are resolved in the scope of the pair loop (index names are commonly reused by later loops)
+    scope = fm.of(fm.stmt_of(adds[0])).loops
+    if scope:
+        env = SymEnv(scope[0], parent=env)
     bases = check_conflict_test(chk, fi, inner[0].test, env, R)
     if bases is None:
         return
@@ -337,7 +341,7 @@ def check_conflict_graph(chk, fi: FuncInfo) -> None:
     want_it = ("call", "itertools.combinations", ("call", "range", ("len", R)), ("const", 2))
     if it is not None and isinstance(it, tuple) and it[:2] == ("call", "itertools.combinations"):
         chk.expect(
-            it == want_it,
+            it == want_it or it == ("call", "itertools.combinations", ("call", "enumerate", R), ("const", 2)),
             "conflict-pairs",
             fi.site(outer),
             "all unordered pairs of regions are examined: combinations(range(len(regions)), 2)",
@@ -1147,7 +1151,7 @@ ROBUST = {
     "alphabet-encoder", "alphabet-agree", "alphabet-30", "alphabet-matches", "alphabet-fcfs-levels", "alphabet-multistrand", "decoder-stacks-fresh",
     "conflict-predicate", "conflict-graph", "conflict-pairs", "stems-filter", "stems-run", "region-triple", "fill-width", "fill-trips", "fill-stores",
     "decoder-lifo", "decoder-early-exit", "fcfs-scan-exit", "fcfs-available-reset", "fcfs-mark",
-    "components-walk", "components-start", "greedy-perms", "greedy-earlier-exit", "greedy-mark", "product", "product-skip",
+    "components-walk", "greedy-perms", "greedy-earlier-exit", "greedy-mark", "product", "product-skip",
 }
 
 
